@@ -138,6 +138,8 @@ func template(o op, alg, mode string, i int) memCase {
 // messages only): the same with A's message at a length from the menu of size_test.go - just below, just above and one block
 // above a switch point 1 KiB .. 128 KiB, rotating - followed by calls of which every third has a large message too,
 // straight away and (thorough tier) with the collections of the other starts.
+// The functions that take a key or certificate document (keydoc_test.go) are first call without a content type (thorough: and
+// with the document's own) and follow each A as a rotating sixth (thorough: half) of their base forms.
 func TestSeqSweep(t *testing.T) {
 	defer oneP()()
 	sec := vk.Sec("SeqSweep")
@@ -145,12 +147,13 @@ func TestSeqSweep(t *testing.T) {
 		o    op
 		c    memCase
 		okay bool
+		mi   int
 	}
 	var all []tmpl
 	for _, o := range ops {
 		for _, alg := range o.Algs {
 			for mi, mode := range o.Modes(alg) {
-				all = append(all, tmpl{o: o, c: template(o, alg, mode, len(all)), okay: mi == 0})
+				all = append(all, tmpl{o: o, c: template(o, alg, mode, len(all)), okay: mi == 0, mi: mi})
 			}
 		}
 	}
@@ -161,6 +164,9 @@ func TestSeqSweep(t *testing.T) {
 			large := variant >= 3
 			if large && (!A.o.sized(A.c.Alg, A.c.Mode) || !(A.okay || vk.Thorough())) {
 				continue // quick tier: the first call with a large message on its successful path only
+			}
+			if A.o.Doc && A.mi > vk.Pick(0, 1) {
+				continue // the functions that take a document are first call without a content type (thorough: and with the document's own); KeyDocSweep goes through the other content types
 			}
 			idx++
 			if !vk.Mine(idx) {
@@ -173,6 +179,9 @@ func TestSeqSweep(t *testing.T) {
 			for bi, B := range all {
 				if !B.okay && !(vk.Thorough() && (ai+bi)%4 == 0) {
 					continue
+				}
+				if B.o.Doc && (ai+bi)%vk.Pick(6, 2) != 0 {
+					continue // the document forms: a rotating sixth (thorough: half) follows each A
 				}
 				if B.o.Heavy && (ai+bi)%vk.Pick(48, 4) != 0 {
 					continue // the RSA private-key operations take milliseconds: a rotating subset follows each A
@@ -228,6 +237,8 @@ func TestSeqRapid(t *testing.T) {
 		{"aeskw.Wrap", "aeskw.Unwrap"}, {"padding.PadPKCS7", "padding.UnpadPKCS7"}, {"aescbcaead.Seal", "aescbcaead.Open"},
 		{"crypto.ParseKey", "crypto.EncryptSymmetric"}, {"aescbcaead.Seal", "crypto.EncryptSymmetric", "padding.PadPKCS7"},
 		{"aescbcaead.Open", "crypto.DecryptSymmetric", "padding.UnpadPKCS7", "aeskw.Unwrap"},
+		{"crypto.ParseKey", "pem.DecodePEMPrivateKey", "pem.DecodePEMCertificates", "pem.DecodePEMCertificatesChain"}, {"crypto.ParseKey", "crypto.SerializeKey", "pem.EncodePrivateKey", "pem.PublicKeysEqual"},
+		{"aescbcaead.New", "aescbcaead.Seal", "aescbcaead.Open"},
 	}
 	vk.Check(t, 2500, 300000, func(rt *rapid.T) {
 		grp := rapid.SampledFrom(groups).Draw(rt, "family")
